@@ -938,6 +938,13 @@ impl<'comments> Formatter<'comments> {
         preferred_format: &ByteArrayFormatPreference,
     ) -> Document<'a> {
         match preferred_format {
+            // NOTE: nothing to lay out; when broken, the array layout below would leave a lone comma.
+            ByteArrayFormatPreference::ArrayOfBytes(_) if bytes.is_empty() => "#"
+                .to_doc()
+                .append(Document::String(
+                    curve.map(|c| c.to_string()).unwrap_or_default(),
+                ))
+                .append("[]"),
             ByteArrayFormatPreference::HexadecimalString => "#"
                 .to_doc()
                 .append(Document::String(
